@@ -330,6 +330,24 @@ fn chunker_config_from_params<R>(
     p: dict::ChunkerParameters,
 ) -> Result<chunker::Config, ArchiveError<R>> {
     use dict::chunker_parameters::ChunkingAlgorithm;
+    // Reject parameters no chunker can work with. They would otherwise cause a panic (zero
+    // window, filter bits outside the shiftable range, window or min size above max size)
+    // or an endless stream of empty chunks (zero max size) once the chunker is used.
+    let invalid = match ChunkingAlgorithm::try_from(p.chunking_algorithm) {
+        Ok(ChunkingAlgorithm::FixedSize) => p.max_chunk_size == 0,
+        Ok(algorithm) => {
+            !(1..=30).contains(&p.chunk_filter_bits)
+                || p.rolling_hash_window_size == 0
+                || p.max_chunk_size == 0
+                || p.min_chunk_size > p.max_chunk_size
+                || (algorithm == ChunkingAlgorithm::Buzhash
+                    && p.rolling_hash_window_size > p.max_chunk_size)
+        }
+        Err(_err) => false,
+    };
+    if invalid {
+        return Err(ArchiveError::invalid_archive("invalid chunker parameters"));
+    }
     match ChunkingAlgorithm::try_from(p.chunking_algorithm) {
         Ok(ChunkingAlgorithm::Buzhash) => Ok(chunker::Config::BuzHash(chunker::FilterConfig {
             filter_bits: chunker::FilterBits::from_bits(p.chunk_filter_bits),
